@@ -181,6 +181,17 @@ def check(ctx):
         if c.bb in start.live_blocks() and "callback" in (c.name or "").rsplit("::", 1)[-1] and c.gbodies:
             for g in c.gbodies:
                 spawn_closures.append((c, g))
+    # the connection threads log (`debug!`): whatever the installed logger runs per record runs in them too. A formatter / filter closure
+    # handed to the logger builder in acme_common::logs is enumerated like per-connection code (the `log` facade is dynamic dispatch: the
+    # call graph has no edge from `debug!` to it)
+    for k_, lb_ in prog.bodies.items():
+        if lb_.crate != "acme_common" or not k_.startswith("acme_common::logs::") or lb_.kind == "Closure":
+            continue
+        for c in prog.body(k_).calls:
+            if c.bb in prog.body(k_).live_blocks() and c.gbodies and any(s_ in (c.name or "") for s_ in ("env_logger", "syslog", "log::set_")) \
+                    and (c.name or "").rsplit("::", 1)[-1] in ("format", "filter", "set_boxed_logger", "set_logger", "parse_write_style", "target"):
+                for g in c.gbodies:
+                    spawn_closures.append((c, g))
     ctx.floor(R1, "per-connection closures passed to thread::spawn", len(spawn_closures), 2)
     # R4: accept only within closures
     for c in start.calls_to("*SslAcceptor::accept"):
